@@ -22,6 +22,7 @@ EXPLANATION = (
     "count against maximum_associations; (5) the rejection is (2, 3, 2) = transient, "
     "presentation-related, local-limit-exceeded. Trusted: CPython's threading.enumerate() "
     "(contains every started, not yet finished thread, including the caller)."
+    " Fourth session: (population) ApplicationEntity.active_associations is evaluated on live associations in every stage (negotiating, established, releasing, aborted) of this and another AE; the counted list is not edited - directly or through an alias - before it is measured; a population kept in the AE's own bookkeeping instead of threading.enumerate() is a violation."
 )
 
 
